@@ -20,7 +20,7 @@
    coverage.tested_only_components. *)
 From Verif Require Import Base.GoSem Base.GoStrings Base.GoStringsProofs.
 From Verif Require Import Css.Urls Css.UrlsProofs Css.PageSel Css.PageSelProofs
-  Css.HtmlAttr Css.HtmlAttrProofs Css.SvgAttr Css.SvgAttrProofs.
+  Css.HtmlAttr Css.HtmlAttrProofs Css.SvgAttr Css.SvgAttrProofs Css.ColorMq Css.ColorMqProofs.
 From Coq Require Import List ZArith NArith Bool.
 Import ListNotations.
 Open Scope Z_scope.
@@ -43,6 +43,19 @@ Print Assumptions C07_unquote_identity_without_percent.
 Theorem C07_unquote_never_grows : forall s t, unquote s = Ok t -> (length t <= length s)%nat.
 Proof. exact unquote_length. Qed.
 Print Assumptions C07_unquote_never_grows.
+
+(* percent-decoding inverts the percent-encoding "%XX" of every byte string (RFC 3986 2.1) *)
+Theorem C07_unquote_inverts_escape :
+  forall s, forallb is_byte s = true -> unquote (escape_all s) = Ok s.
+Proof. exact unquote_escape_all. Qed.
+Print Assumptions C07_unquote_inverts_escape.
+
+Theorem C07_unescape_inverts_escape :
+  forall s, forallb is_byte s = true -> unescape_bytes (escape_all s) = Ok (Some s).
+Proof. exact unescape_escape_all. Qed.
+Print Assumptions C07_unescape_inverts_escape.
+Example C07_escape_all_example : escape_all [0; 255; 37]%N = [37; 48; 48; 37; 70; 70; 37; 50; 53]%N.
+Proof. reflexivity. Qed.
 
 (* utils.unescape: percent-decoding of a data: payload *)
 Theorem C07_unescape_total : forall s, exists r, unescape_bytes s = Ok r.
@@ -162,6 +175,25 @@ Theorem C07_parse_font_weight_total : forall s, exists r, parse_font_weight s = 
 Proof. exact parse_font_weight_total. Qed.
 Print Assumptions C07_parse_font_weight_total.
 
+(* ------------------------------------------------------------------ colour and media query parsers *)
+(* pa.ParseColor on any component value (incl. the explicit panic of mustParseHexa: unreachable) *)
+Theorem C07_parse_color_total : forall t, exists r, parse_color t = Ok r.
+Proof. exact parse_color_total. Qed.
+Print Assumptions C07_parse_color_total.
+
+Theorem C07_parse_comma_separated_total : forall tokens, exists r, parse_comma_separated tokens = Ok r.
+Proof. exact parse_comma_separated_total. Qed.
+Print Assumptions C07_parse_comma_separated_total.
+
+Theorem C07_parse_media_query_total : forall tokens, exists r, parse_media_query tokens = Ok r.
+Proof. exact parse_media_query_total. Qed.
+Print Assumptions C07_parse_media_query_total.
+
+(* the prelude handling of @import: tokens[0] / tokens[1:] *)
+Theorem C07_import_media_total : forall prelude, exists r, import_media prelude = Ok r.
+Proof. exact import_media_total. Qed.
+Print Assumptions C07_import_media_total.
+
 (* ------------------------------------------------------------------ the property, as far as it is a statement about models *)
 (* Every parser modelled here is total.  The full property text also covers the
    components modelled by C05/C06/C08/C14/C18/C19 (their own theorems) and the
@@ -180,13 +212,17 @@ Definition C07_modelled_parsers_total_statement : Prop :=
   (forall s, exists r, new_painter s = Ok r) /\
   (forall s, exists r, parse_value s = Ok r) /\
   (forall s, exists r, parse_opacity s = Ok r) /\
-  (forall s, exists r, parse_font_weight s = Ok r).
+  (forall s, exists r, parse_font_weight s = Ok r) /\
+  (forall t, exists r, parse_color t = Ok r) /\
+  (forall t, exists r, parse_media_query t = Ok r) /\
+  (forall t, exists r, import_media t = Ok r).
 Theorem C07_modelled_parsers_total : C07_modelled_parsers_total_statement.
 Proof.
   exact (conj unquote_total (conj unescape_total (conj fetch_data_url_total
         (conj parse_nth_total (conj parse_page_selectors_total (conj integer_attribute_total
         (conj font_size_attr_total (conj parse_preserve_aspect_ratio_total (conj parse_url_strip_total
         (conj new_painter_total (conj parse_value_total (conj parse_opacity_total
-        parse_font_weight_total)))))))))))).
+        (conj parse_font_weight_total (conj parse_color_total (conj parse_media_query_total
+        import_media_total))))))))))))))).
 Qed.
 Print Assumptions C07_modelled_parsers_total.
